@@ -26,4 +26,13 @@ CONFIG = {
             "structural mistakes are built on top of a generated valid program so that the mistake itself is the only defect",
         ],
     },
+    "C04": {
+        "quick": {"checks": 60000, "shards": 4, "timeout": 600},
+        "thorough": {"checks": 2000000, "shards": 14, "timeout": 3000, "shrinktime": "60s"},
+        "assumptions": [
+            "discarded (statement silent): one-sided operator spacing, / and % by zero, % with a fractional operand, == between an integer and a fractional float, unsigned wrap-around, results beyond 2^53, -0.0 printed or used as a condition, division of a number whose type the statement leaves open (result of % with a float operand), equality across string/number/bool",
+            "!e is printed with a parenthesised or primary operand and bare only where a logical connective may stand, so both readings of its level agree",
+            "probe logs are compared as multisets: only which operands are evaluated is asserted, not their order",
+        ],
+    },
 }
